@@ -1125,6 +1125,9 @@ func run(c *hx.Ctx) {
 		res.WriteCases("Run.Run_C13", cases)
 		return
 	}
+	for _, cs := range poolsim.Corpus("C13") {
+		doCase(cs)
+	}
 	doCase(longLine(c.Seed))
 	n := c.Scale(105, 2000)
 	for i := 0; i < n; i++ {
